@@ -38,12 +38,13 @@ type SwitchTable struct {
 }
 
 // ReadSwitchTable reads the table function `name` (method or function) of the package.
-func ReadSwitchTable(pkg *packages.Package, name string) (*SwitchTable, error) {
-	var fd *ast.FuncDecl
-	for _, f := range pkg.Syntax {
-		for _, d := range f.Decls {
-			if x, ok := d.(*ast.FuncDecl); ok && x.Name.Name == name {
-				fd = x
+func ReadSwitchTable(pkg *packages.Package, name string, fd *ast.FuncDecl) (*SwitchTable, error) {
+	if fd == nil {
+		for _, f := range pkg.Syntax {
+			for _, d := range f.Decls {
+				if x, ok := d.(*ast.FuncDecl); ok && x.Name.Name == name {
+					fd = x
+				}
 			}
 		}
 	}
